@@ -16,6 +16,8 @@ package main
 //                        matches) x cases whose selected one is the 1st .. last or none, the earlier patterns
 //                        matching what a re-evaluation of the subject would yield; oracle: a reference that
 //                        evaluates the subject exactly once per match
+//   recursive-bindings   recursive functions whose case body uses its bindings AFTER re-entering the same match
+//                        (tree folds, recursion on numbers, mutual recursion, array patterns with 1-4 names), depth 0-50
 
 import (
 	"fmt"
@@ -1200,6 +1202,453 @@ func c19Ordinal(sel, n int) string {
 	return fmt.Sprint(sel + 1)
 }
 
+// ---------------------------------------------------------------- bindings across re-entry
+//
+// "the bindings are visible in that case's body" -- also after the body has called a
+// function that runs the SAME match expression again (recursion), one or several times,
+// directly or through another function's match. Every program here is a recursive
+// function whose match case body uses its own bindings AFTER the recursive call(s)
+// returned; the expected output is computed in Go from the closed form / a direct
+// evaluation of the recurrence.
+
+// a binary tree as jqawk sees it: [] or [left, value, right]
+type c19Tree struct {
+	l, r *c19Tree
+	v    interface{} // float64 or string
+}
+
+func c19TreeText(t *c19Tree, json bool) string {
+	if t == nil {
+		return "[]"
+	}
+	v := ""
+	switch x := t.v.(type) {
+	case float64:
+		v = strconv.FormatFloat(x, 'f', -1, 64)
+	case string:
+		v = `"` + x + `"`
+	}
+	sep := ", "
+	if json {
+		sep = ","
+	}
+	return "[" + c19TreeText(t.l, json) + sep + v + sep + c19TreeText(t.r, json) + "]"
+}
+
+// c19RandTree: shape 0 = random (depth <= 6), 1 = left spine, 2 = right spine, 3 = zigzag (depth as given, up to 50)
+func c19RandTree(r *rand.Rand, shape, depth int, strs bool) *c19Tree {
+	val := func() interface{} {
+		if strs && chance(r, 0.4) {
+			return pick(r, []string{"a", "b", "x y", "é", "", "10"})
+		}
+		return float64(r.Intn(100))
+	}
+	var build func(d, side int) *c19Tree
+	build = func(d, side int) *c19Tree {
+		if d <= 0 {
+			return nil
+		}
+		t := &c19Tree{v: val()}
+		switch shape {
+		case 0:
+			if chance(r, 0.75) {
+				t.l = build(d-1, 0)
+			}
+			if chance(r, 0.75) {
+				t.r = build(d-1, 0)
+			}
+		case 1:
+			t.l = build(d-1, 0)
+		case 2:
+			t.r = build(d-1, 0)
+		default:
+			if side == 0 {
+				t.l = build(d-1, 1)
+			} else {
+				t.r = build(d-1, 0)
+			}
+		}
+		return t
+	}
+	return build(depth, 0)
+}
+
+type c19Fold struct {
+	name string
+	base string // value of the empty tree, as program text
+	body string // L V R = the bindings, F = the function
+	eval func(t *c19Tree) interface{}
+	strs bool // string values allowed
+	big  bool // the value grows exponentially with the depth
+}
+
+func c19FoldNum(f func(l, v, r float64) float64) func(t *c19Tree) interface{} {
+	var ev func(t *c19Tree) float64
+	ev = func(t *c19Tree) float64 {
+		if t == nil {
+			return 0
+		}
+		return f(ev(t.l), t.v.(float64), ev(t.r))
+	}
+	return func(t *c19Tree) interface{} { return ev(t) }
+}
+
+func c19InOrder(t *c19Tree, open, close string) string {
+	if t == nil {
+		return ""
+	}
+	return c19InOrder(t.l, open, close) + open + c19Pretty(t.v, false) + close + c19InOrder(t.r, open, close)
+}
+
+var c19Folds = []c19Fold{
+	{"sum l v r", "0", "F(L) + V + F(R)", c19FoldNum(func(l, v, r float64) float64 { return l + v + r }), false, false},
+	{"sum l r v", "0", "F(L) + F(R) + V", c19FoldNum(func(l, v, r float64) float64 { return l + v + r }), false, false},
+	{"sum r v l", "0", "F(R) + V + F(L)", c19FoldNum(func(l, v, r float64) float64 { return l + v + r }), false, false},
+	{"sum v first", "0", "V + F(L) + F(R)", c19FoldNum(func(l, v, r float64) float64 { return l + v + r }), false, false},
+	{"value before and after", "0", "V + F(L) + V + F(R) + V", c19FoldNum(func(l, v, r float64) float64 { return l + 3*v + r }), false, false},
+	{"weighted", "0", "F(L) * 3 + V + F(R) * 7", c19FoldNum(func(l, v, r float64) float64 { return l*3 + v + r*7 }), false, true},
+	{"count", "0", "F(L) + 1 + F(R)", func(t *c19Tree) interface{} {
+		var ev func(t *c19Tree) float64
+		ev = func(t *c19Tree) float64 {
+			if t == nil {
+				return 0
+			}
+			return ev(t.l) + 1 + ev(t.r)
+		}
+		return ev(t)
+	}, true, false},
+	{"left only, right used after", "0", "F(L) + V + R.length()", func(t *c19Tree) interface{} {
+		var ev func(t *c19Tree) float64
+		ev = func(t *c19Tree) float64 {
+			if t == nil {
+				return 0
+			}
+			n := 0.0
+			if t.r != nil {
+				n = 3
+			}
+			return ev(t.l) + t.v.(float64) + n
+		}
+		return ev(t)
+	}, false, false},
+	{"in-order string", `""`, `F(L) + "(" + V + ")" + F(R)`, func(t *c19Tree) interface{} { return c19InOrder(t, "(", ")") }, true, false},
+	{"in-order string, nested match in the body", `""`, `match (V) { w => F(L) + "<" + w + V + ">" + F(R) }`, func(t *c19Tree) interface{} {
+		var ev func(t *c19Tree) string
+		ev = func(t *c19Tree) string {
+			if t == nil {
+				return ""
+			}
+			v := c19Pretty(t.v, false)
+			return ev(t.l) + "<" + v + v + ">" + ev(t.r)
+		}
+		return ev(t)
+	}, true, false},
+}
+
+var c19BindNames = [][]string{{"l", "v", "r"}, {"a", "b", "c"}, {"left", "val", "right"}, {"_l", "k", "n"}, {"x", "y", "z"}, {"t1", "nextval", "t2"}, {"p", "q", "_"}}
+
+func c19TreeFold(r *rand.Rand, emit func(Case)) {
+	fold := pick(r, c19Folds)
+	names := pick(r, c19BindNames)
+	fn := pick(r, []string{"f", "sum", "walk", "fold_", "g1"})
+	body := strings.NewReplacer("F", fn, "L", names[0], "V", names[1], "R", names[2]).Replace(fold.body)
+	pat := "[" + names[0] + ", " + names[1] + ", " + names[2] + "]"
+	var cases string
+	switch r.Intn(4) {
+	case 0:
+		cases = "[] => " + fold.base + ",\n    " + pat + " => " + body + ",\n"
+	case 1:
+		cases = "[] => " + fold.base + ",\n    " + pat + " => " + body + "\n"
+	case 2:
+		cases = pat + " => " + body + ",\n    [] => " + fold.base + "\n"
+	default:
+		cases = "[e1], [e1, e2] => \"never\",\n    " + pat + " => " + body + ",\n    other => " + fold.base + "\n"
+	}
+	funcs := "function " + fn + "(t) {\n  return match (t) {\n    " + cases + "  }\n}\n"
+	if chance(r, 0.25) {
+		// block body with return
+		funcs = "function " + fn + "(t) {\n  match (t) {\n    " + pat + " => {\n      return " + body + "\n    }\n  }\n  return " + fold.base + "\n}\n"
+	}
+	ntrees := 1 + r.Intn(3)
+	var trees []*c19Tree
+	for i := 0; i < ntrees; i++ {
+		shape, depth := r.Intn(4), r.Intn(7)
+		if shape != 0 {
+			depth = r.Intn(51)
+			if fold.big {
+				depth = r.Intn(12)
+			}
+		}
+		trees = append(trees, c19RandTree(r, shape, depth, fold.strs))
+	}
+	var want strings.Builder
+	for _, t := range trees {
+		want.WriteString(c19Pretty(fold.eval(t), false) + "\n")
+	}
+	var prog string
+	var files []File
+	after := "  print " + names[0] + " is unknown, " + names[1] + " is unknown\n"
+	switch r.Intn(3) {
+	case 0: // from the document
+		prog = funcs + "{\n  print " + fn + "($)\n}\nEND {\n" + after + "}\n"
+		var doc []string
+		for _, t := range trees {
+			doc = append(doc, c19TreeText(t, true))
+		}
+		files = []File{{Name: "in.json", Data: []byte("[" + strings.Join(doc, ",") + "]")}}
+	case 1: // literals
+		prog = funcs + "BEGIN {\n"
+		for _, t := range trees {
+			prog += "  print " + fn + "(" + c19TreeText(t, false) + ")\n"
+		}
+		prog += after + "}\n"
+	default: // through a variable
+		prog = funcs + "BEGIN {\n"
+		for i, t := range trees {
+			prog += fmt.Sprintf("  tree%d = %s\n  print %s(tree%d)\n", i, c19TreeText(t, false), fn, i)
+		}
+		prog += after + "}\n"
+	}
+	want.WriteString("true true\n")
+	c19EmitRec(emit, prog, files, want.String(), "tree fold: "+fold.name)
+}
+
+func c19EmitRec(emit func(Case), prog string, files []File, want, probe string) {
+	emit(Case{Req: RunReq(prog, nil, files, false), Fields: []string{"class", "out"}, Meta: metaProg(prog, "probe", probe, "want", short(want), "row", strings.SplitN(probe, ":", 2)[0]),
+		Oracle: c19Oracle(want, "ok"), NonTrivial: func(i Resp) bool { return i["class"] == "ok" }})
+}
+
+// recursion on a number n: the case body combines its binding with the value of the call for n - 1
+type c19NumRec struct {
+	name  string
+	funcs string // F = function name, K = the binding
+	max   int
+	eval  func(n int) string
+}
+
+func c19Itoa(f float64) string { return strconv.FormatFloat(f, 'f', -1, 64) }
+
+func c19JoinUp(n int, sep string) string {
+	parts := make([]string, n+1)
+	for i := range parts {
+		parts[i] = fmt.Sprint(i)
+	}
+	return strings.Join(parts, sep)
+}
+
+var c19NumRecs = []c19NumRec{
+	{"triangular, binding after the call", "function F(n) {\n  return match (n) {\n    0 => 0,\n    K => F(K - 1) + K,\n  }\n}\n", 50, func(n int) string { return fmt.Sprint(n * (n + 1) / 2) }},
+	{"factorial, binding after the call", "function F(n) {\n  return match (n) {\n    0 => 1,\n    K => F(K - 1) * K\n  }\n}\n", 18, func(n int) string {
+		f := 1.0
+		for i := 2; i <= n; i++ {
+			f *= float64(i)
+		}
+		return c19Itoa(f)
+	}},
+	{"binding before and after the call", "function F(n) {\n  return match (n) {\n    0 => 0,\n    K => K + F(K - 1) + K\n  }\n}\n", 50, func(n int) string { return fmt.Sprint(n * (n + 1)) }},
+	{"binding and parameter after the call", "function F(n) {\n  return match (n) {\n    0 => 0,\n    K => F(K - 1) + K + n\n  }\n}\n", 50, func(n int) string { return fmt.Sprint(n * (n + 1)) }},
+	{"joined string", "function F(n) {\n  return match (n) {\n    0 => \"0\",\n    K => F(K - 1) + \",\" + K\n  }\n}\n", 50, func(n int) string { return c19JoinUp(n, ",") }},
+	{"nested string, binding on both sides", "function F(n) {\n  return match (n) {\n    0 => \"\",\n    K => K + \"<\" + F(K - 1) + \">\" + K\n  }\n}\n", 50, func(n int) string {
+		s := ""
+		for i := 1; i <= n; i++ {
+			s = fmt.Sprint(i) + "<" + s + ">" + fmt.Sprint(i)
+		}
+		return s
+	}},
+	{"two calls, binding in the second call's argument", "function F(n) {\n  return match (n) {\n    0 => 0,\n    1 => 1,\n    K => F(K - 1) + F(K - 2)\n  }\n}\n", 15, func(n int) string {
+		a, b := 0, 1
+		for i := 0; i < n; i++ {
+			a, b = b, a+b
+		}
+		return fmt.Sprint(a)
+	}},
+	{"two calls, then the binding", "function F(n) {\n  return match (n) {\n    0, 1 => 1,\n    K => F(K - 1) + F(K - 2) + K\n  }\n}\n", 15, func(n int) string {
+		v := make([]int, n+2)
+		v[0], v[1] = 1, 1
+		for i := 2; i <= n; i++ {
+			v[i] = v[i-1] + v[i-2] + i
+		}
+		return fmt.Sprint(v[n])
+	}},
+	{"block body, binding printed after the call", "function F(n) {\n  match (n) {\n    0 => { }\n    K => {\n      F(K - 1)\n      print \"up\", K\n    }\n  }\n  return \"done\"\n}\n", 50, func(n int) string {
+		s := ""
+		for i := 1; i <= n; i++ {
+			s += fmt.Sprintf("up %d\n", i)
+		}
+		return s + "done"
+	}},
+	{"block body, binding printed before and after the call", "function F(n) {\n  match (n) {\n    0 => { print \"bottom\" }\n    K => {\n      print \"down\", K\n      F(K - 1)\n      print \"up\", K\n    }\n  }\n  return n\n}\n", 50, func(n int) string {
+		s := ""
+		for i := n; i >= 1; i-- {
+			s += fmt.Sprintf("down %d\n", i)
+		}
+		s += "bottom\n"
+		for i := 1; i <= n; i++ {
+			s += fmt.Sprintf("up %d\n", i)
+		}
+		return s + fmt.Sprint(n)
+	}},
+	{"nested match in the body, both bindings after the call", "function F(n) {\n  return match (n) {\n    0 => 0,\n    K => match (K * 2) {\n      d => F(K - 1) + d - K\n    }\n  }\n}\n", 50, func(n int) string { return fmt.Sprint(n * (n + 1) / 2) }},
+	{"array subject, two bindings after the call", "function F(n) {\n  return match ([n, n * 2]) {\n    [0, z] => 0,\n    [K, d] => F(K - 1) + d - K\n  }\n}\n", 50, func(n int) string { return fmt.Sprint(n * (n + 1) / 2) }},
+	{"call in a loop in the body, binding after the loop", "function F(n) {\n  return match (n) {\n    0 => 1,\n    K => {\n      for (j in [1, 2]) { F(K - 1) }\n      cnt = cnt + K\n    }\n  }\n}\n", 9, nil},
+	{"one function, two match expressions by parity", "function F(n) {\n  if (n % 2 == 0) return match (n) {\n    0 => 0,\n    K => F(K - 1) + K\n  }\n  return match (n) {\n    j => F(j - 1) + 3 * j\n  }\n}\n", 50, func(n int) string {
+		t := 0
+		for i := 1; i <= n; i++ {
+			if i%2 == 0 {
+				t += i
+			} else {
+				t += 3 * i
+			}
+		}
+		return fmt.Sprint(t)
+	}},
+}
+
+func c19NumRecursion(r *rand.Rand, emit func(Case)) {
+	nr := pick(r, c19NumRecs)
+	fn := pick(r, []string{"f", "fact", "rec", "g_"})
+	k := pick(r, []string{"k", "x", "m", "_k", "nextval", "v"})
+	funcs := strings.NewReplacer("F", fn, "K", k).Replace(nr.funcs)
+	if nr.eval == nil {
+		// the loop form counts in a global: sum over all activations of their binding
+		n := r.Intn(nr.max + 1)
+		var total func(n int) int
+		total = func(n int) int {
+			if n == 0 {
+				return 0
+			}
+			return 2*total(n-1) + n
+		}
+		prog := funcs + "BEGIN {\n  cnt = 0\n  " + fn + fmt.Sprintf("(%d)\n  print cnt\n}\n", n)
+		c19EmitRec(emit, prog, nil, fmt.Sprintf("%d\n", total(n)), "numeric recursion: "+nr.name)
+		return
+	}
+	var ns []int
+	for i, c := 0, 1+r.Intn(3); i < c; i++ {
+		n := r.Intn(nr.max + 1)
+		if chance(r, 0.2) {
+			n = pick(r, []int{0, 1, 2, nr.max})
+		}
+		ns = append(ns, n)
+	}
+	want := ""
+	for _, n := range ns {
+		want += nr.eval(n) + "\n"
+	}
+	var prog string
+	var files []File
+	if chance(r, 0.4) {
+		var doc []string
+		for _, n := range ns {
+			doc = append(doc, fmt.Sprint(n))
+		}
+		prog = funcs + "{\n  print " + fn + "($)\n}\nEND { print " + k + " is unknown }\n"
+		files = []File{{Name: "in.json", Data: []byte("[" + strings.Join(doc, ", ") + "]")}}
+	} else {
+		prog = funcs + "BEGIN {\n"
+		for _, n := range ns {
+			prog += fmt.Sprintf("  print %s(%d)\n", fn, n)
+		}
+		prog += "  print " + k + " is unknown\n}\n"
+	}
+	c19EmitRec(emit, prog, files, want+"true\n", "numeric recursion: "+nr.name)
+}
+
+// mutual recursion through two (three) different match expressions
+func c19Mutual(r *rand.Rand, emit func(Case)) {
+	n := r.Intn(51)
+	switch r.Intn(3) {
+	case 0:
+		prog := "function ev(n) {\n  return match (n) {\n    0 => \"\",\n    k => od(k - 1) + \"e\" + k\n  }\n}\nfunction od(n) {\n  return match (n) {\n    0 => \"\",\n    j => ev(j - 1) + \"o\" + j,\n  }\n}\nBEGIN { print \"[\" + ev(" + fmt.Sprint(n) + ") + \"]\" }\n"
+		s := ""
+		for i := 1; i <= n; i++ {
+			if (n-i)%2 == 0 {
+				s += "e" + fmt.Sprint(i)
+			} else {
+				s += "o" + fmt.Sprint(i)
+			}
+		}
+		c19EmitRec(emit, prog, nil, "["+s+"]\n", "mutual recursion: two matches, strings")
+	case 1:
+		// the same binding name in both functions
+		prog := "function a(n) {\n  return match (n) {\n    0 => 0,\n    k => b(k - 1) + k\n  }\n}\nfunction b(n) {\n  match (n) {\n    0 => { return 0 }\n    k => {\n      return a(k - 1) + 2 * k\n    }\n  }\n}\n{ print a($), b($) }\n"
+		var fa, fb func(n int) int
+		fa = func(n int) int {
+			if n == 0 {
+				return 0
+			}
+			return fb(n-1) + n
+		}
+		fb = func(n int) int {
+			if n == 0 {
+				return 0
+			}
+			return fa(n-1) + 2*n
+		}
+		m := r.Intn(51)
+		c19EmitRec(emit, prog, []File{{Name: "in.json", Data: []byte(fmt.Sprintf("[%d, %d]", n, m))}}, fmt.Sprintf("%d %d\n%d %d\n", fa(n), fb(n), fa(m), fb(m)), "mutual recursion: two matches, same binding name")
+	default:
+		prog := "function a(n) {\n  return match (n) {\n    0 => 0,\n    x => b(x - 1) + x\n  }\n}\nfunction b(n) {\n  return match ([n]) {\n    [0] => 0,\n    [y] => c(y - 1) + 10 * y\n  }\n}\nfunction c(n) {\n  return match (n) {\n    0 => 0,\n    z => match (z) { w => a(z - 1) + 100 * w }\n  }\n}\nBEGIN { print a(" + fmt.Sprint(n) + "), x is unknown }\n"
+		var f func(n, which int) int
+		f = func(n, which int) int {
+			if n == 0 {
+				return 0
+			}
+			return f(n-1, (which+1)%3) + []int{1, 10, 100}[which]*n
+		}
+		c19EmitRec(emit, prog, nil, fmt.Sprintf("%d true\n", f(n, 0)), "mutual recursion: three matches")
+	}
+}
+
+// lists cut into chunks: [] | [w] | [a, rest] | [a, b, rest] | [a, b, c, rest] | [[a, b], rest]:
+// array patterns with 1-4 names, every name used after the recursive call
+func c19Chunks(r *rand.Rand, emit func(Case)) {
+	depth := r.Intn(51)
+	text, total := "[]", 0.0
+	if chance(r, 0.5) {
+		w := 1 + r.Intn(9)
+		text, total = fmt.Sprintf("[%d]", w), float64(w)
+	}
+	for i := 0; i < depth; i++ {
+		a, b, c := 1+r.Intn(9), 1+r.Intn(9), 1+r.Intn(9)
+		switch r.Intn(4) {
+		case 0:
+			text, total = fmt.Sprintf("[%d, %s]", a, text), total+float64(a)
+		case 1:
+			text, total = fmt.Sprintf("[%d, %d, %s]", a, b, text), total+float64(a*10+b)
+		case 2:
+			text, total = fmt.Sprintf("[%d, %d, %d, %s]", a, b, c, text), total+float64(a*100+b*10+c)
+		default:
+			text, total = fmt.Sprintf("[[%d, %d], %s]", a, b, text), total+float64(a*1000+b)
+		}
+	}
+	cases := []string{"[] => 0", "[w] => s([]) + w", "[[p, q], rest] => s(rest) + p * 1000 + q", "[a, rest] => s(rest) + a", "[a, b, rest] => s(rest) + a * 10 + b", "[a, b, c, rest] => s(rest) + a * 100 + b * 10 + c"}
+	// the nested pattern must come before [a, rest] (same length); the others in any order
+	idx := []int{0, 1, 4, 5}
+	r.Shuffle(len(idx), func(i, j int) { idx[i], idx[j] = idx[j], idx[i] })
+	at := r.Intn(len(idx) + 1)
+	var order []string
+	for i, k := range idx {
+		if i == at {
+			order = append(order, cases[2], cases[3])
+		}
+		order = append(order, cases[k])
+	}
+	if at == len(idx) {
+		order = append(order, cases[2], cases[3])
+	}
+	funcs := "function s(t) {\n  return match (t) {\n    " + strings.Join(order, ",\n    ") + "\n  }\n}\n"
+	var prog string
+	var files []File
+	if chance(r, 0.5) {
+		prog = funcs + "{ print s($) }\nEND { print rest is unknown, a is unknown }\n"
+		files = []File{{Name: "in.json", Data: []byte("[" + text + "]")}}
+	} else {
+		prog = funcs + "BEGIN { print s(" + text + ")\n print rest is unknown, a is unknown }\n"
+	}
+	c19EmitRec(emit, prog, files, c19Itoa(total)+"\ntrue true\n", fmt.Sprintf("chunked list: array patterns with 1-4 names, %d chunks", depth))
+}
+
 // ---------------------------------------------------------------- laws
 
 type c19Law struct{ prog, want, class string }
@@ -1300,6 +1749,20 @@ func init() {
 							return ""
 						},
 						NonTrivial: func(i Resp) bool { return i["class"] == "ok" || i["class"] == "runtime" }})
+				}
+			}
+		},
+	})
+	register(Family{
+		Name: "recursive-bindings", Prop: "C19",
+		Rule: "recursive functions whose match case body calls the function again (once, twice, in a loop, through a second / third function with its own match, through a nested match) and uses its own bindings AFTER the call returned: folds over binary trees [l, v, r] (10 combinations: sums in every operand order, the value before and after, weighted 3/7 to tell l from r, count, in-order strings, a nested match in the body; expression and block bodies, [] first / last / a catch-all; random trees to depth 6, left / right / zigzag spines to depth 50; 1-3 trees from the document, as literals or through variables), recursion on a number 0..50 (triangular, factorial to 18, binding before and after, binding and parameter, joined and nested strings, Fibonacci-like double calls, block bodies printing the binding before / after the call, nested match, array subject with two bindings, calls in a loop, two match expressions in one function), mutual recursion through two and three different matches (same and different binding names), lists cut into chunks matched by array patterns with 1-4 names and a nested pattern, 0-50 chunks; binding names from 6-7 pools; afterwards the binding names must be unknown outside; oracle: closed form / direct evaluation of the recurrence in Go, exact output",
+		Gen: func(r *rand.Rand, tier string, emit func(Case)) {
+			for i, n := 0, tierN(tier, 500, 8000); i < n; i++ {
+				c19TreeFold(r, emit)
+				c19NumRecursion(r, emit)
+				if i%2 == 0 {
+					c19Mutual(r, emit)
+					c19Chunks(r, emit)
 				}
 			}
 		},
